@@ -1,14 +1,15 @@
 ---- MODULE LimitsScen ----
-(* Scenario generator for C62: head size relative to the limit, where the excess sits, how the bytes arrive. *)
+(* Scenario generator for C62: head size relative to the limit, where the excess sits ("both": half of the bytes in the
+   first line, half in the fields, neither part alone reaches the limit), how the bytes arrive. *)
 EXTENDS Naturals, Integers, TLC, Json
 VARIABLES par, pred
 vars == <<par, pred>>
 Init == /\ par \in [dir : {"req", "resp"}, limit : {4096, 65536}, delta : {0 - 2000, 0 - 600, 0 - 2, 0, 2, 100, 5000, 70000},
-                    where : {"line", "onefield", "manyfields"}, arrival : {"oneshot", "chunks", "splitAtLimit"}]
-        /\ (par.dir = "resp" => par.where # "line")
+                    where : {"line", "onefield", "manyfields", "both"}, arrival : {"oneshot", "chunks", "splitAtLimit"}]
+        /\ (par.dir = "resp" => par.where \notin {"line", "both"})
         /\ pred = "?"
 \* request targets longer than MAX_URL (8 KiB) are refused on their own
-Predict == IF par.where = "line" /\ par.limit > 8192 THEN "any" ELSE IF par.delta >= 100 THEN "reject" ELSE IF par.delta <= 0 - 600 THEN "pass" ELSE "any"
+Predict == IF par.where \in {"line", "both"} /\ par.limit > 8192 THEN "any" ELSE IF par.delta >= 100 THEN "reject" ELSE IF par.delta <= 0 - 600 THEN "pass" ELSE "any"
 Next == pred = "?" /\ pred' = Predict /\ UNCHANGED par
 Spec == Init /\ [][Next]_vars
 Dump == pred # "?" => PrintT(<<"SCEN", ToJson([par |-> par, pred |-> pred])>>)
